@@ -21,6 +21,10 @@ func main() {
 	r := hlib.NewRng(cfg.Seed)
 	for i := 0; i < cfg.N; i++ {
 		cr := r.Fork()
+		if r.Chance(1, 40) {
+			enumBoundaryCase(cr, s)
+			continue
+		}
 		switch k := r.Intn(22); {
 		case k < 8:
 			filterCase(cr, s)
